@@ -580,7 +580,8 @@ fn target_cases(ti: usize) -> BoxedStrategy<Case> {
     }
     if t.group == G_ICY {
         // hand-written record lists: one or two layers of either role with extreme sizes / picture headers, continuation records
-        let dim = || prop_oneof![3 => prop::sample::select(DIM_EXTREMES.to_vec()), 2 => 2u32..=12, 1 => any::<u32>()];
+        // no sizes between 2^16 and 2^31: they allocate (and fill) hundreds of megabytes per row before the heap cap ends the case
+        let dim = || prop_oneof![6 => prop::sample::select(vec![0u32, 0xFFFF_FFFF, 1]), 1 => Just(0x7FFF_FFFFu32), 5 => 2u32..=12, 1 => prop::sample::select(vec![0x8000_0000u32, 0xFFFF, 0x1_0000])];
         let layer = (0u8..=1, dim(), dim(), [dim(), dim(), dim(), dim()], prop_oneof![Just(vec![]), Just(SOME_CELLS.to_vec()), vec(any::<u8>(), 0..=20)])
             .prop_map(|(role, w, h, pic, payload)| layer_record(role, w, h, if role == 1 { Some(pic) } else { None }, &payload));
         opts.push((
